@@ -166,12 +166,16 @@ type Solver struct {
 	seq      int
 }
 
-func (s *Solver) Solve(sp *Specs, o *Obligation) *SolveResult {
+// solveWith runs the given back ends (indices into solvers) on one obligation, in order,
+// stopping at the first definite answer.
+func (s *Solver) solveWith(sp *Specs, o *Obligation, which []int, res *SolveResult) *SolveResult {
 	q := buildQuery(sp, o, false)
-	res := &SolveResult{Size: len(q)}
+	if res == nil {
+		res = &SolveResult{Size: len(q)}
+	}
 	sum := sha256.Sum256([]byte(q))
 	key := hex.EncodeToString(sum[:16])
-	if s.cacheDir != "" {
+	if s.cacheDir != "" && len(res.Tried) == 0 {
 		if data, err := os.ReadFile(filepath.Join(s.cacheDir, key+".json")); err == nil {
 			var c SolveResult
 			if json.Unmarshal(data, &c) == nil && c.Status != "" {
@@ -203,7 +207,9 @@ func (s *Solver) Solve(sp *Specs, o *Obligation) *SolveResult {
 		}
 		return res
 	}
-	for i, sv := range solvers {
+	res.Status = ""
+	for _, i := range which {
+		sv := solvers[i]
 		status, out, el := runSolver(sv, file, s.Timeout)
 		res.Tried = append(res.Tried, fmt.Sprintf("%s:%s:%.2fs", sv.name, status, el))
 		res.Secs += el
@@ -212,15 +218,19 @@ func (s *Solver) Solve(sp *Specs, o *Obligation) *SolveResult {
 			continue
 		}
 		if status == "unsat" {
-			res.Status, res.Backend = "unsat", sv.name
-			if !s.All || i > 0 {
+			if res.Backend == "" || res.Status != "unsat" {
+				res.Backend = sv.name
+			} else {
+				res.Backend += "+" + sv.name
+			}
+			res.Status = "unsat"
+			if !s.All {
 				break
 			}
 			continue
 		}
 		if status == "sat" {
 			res.Status, res.Backend = "sat", sv.name
-			// fetch a model from z3-new
 			mq := buildQuery(sp, o, true) + "(get-model)\n"
 			mfile := file + ".model.smt2"
 			os.WriteFile(mfile, []byte(mq), 0o644)
@@ -254,24 +264,65 @@ func firstLines(s string, n int) string {
 	return strings.Join(ls, " | ")
 }
 
-// SolveAll discharges obligations in parallel.
+// SolveAll discharges obligations in parallel. Phase 1 puts every instance to the primary
+// back end. Phase 2 takes the instances it could not decide, group by group (one group per
+// obligation name), to the other back ends, and stops working on a group as soon as one of its
+// instances is refuted or undecided everywhere (the obligation has failed then).
 func (s *Solver) SolveAll(sp *Specs, obls []*Obligation, workers int) {
-	ch := make(chan *Obligation)
-	var wg sync.WaitGroup
-	for i := 0; i < workers; i++ {
-		wg.Add(1)
-		go func() {
-			defer wg.Done()
-			for o := range ch {
-				o.Result = s.Solve(sp, o)
-			}
-		}()
+	par := func(items []func()) {
+		ch := make(chan func())
+		var wg sync.WaitGroup
+		for i := 0; i < workers; i++ {
+			wg.Add(1)
+			go func() {
+				defer wg.Done()
+				for f := range ch {
+					f()
+				}
+			}()
+		}
+		for _, f := range items {
+			ch <- f
+		}
+		close(ch)
+		wg.Wait()
 	}
+	first := []int{0}
+	if s.All {
+		first = []int{0, 1, 2}
+	}
+	var jobs []func()
 	for _, o := range obls {
 		if o.Result == nil {
-			ch <- o
+			o := o
+			jobs = append(jobs, func() { o.Result = s.solveWith(sp, o, first, nil) })
 		}
 	}
-	close(ch)
-	wg.Wait()
+	par(jobs)
+	if s.All {
+		return
+	}
+	groups := map[string][]*Obligation{}
+	var names []string
+	for _, o := range obls {
+		if o.Kind != "canary" && o.Result != nil && o.Result.Status == "unknown" {
+			if _, ok := groups[o.Name]; !ok {
+				names = append(names, o.Name)
+			}
+			groups[o.Name] = append(groups[o.Name], o)
+		}
+	}
+	jobs = nil
+	for _, n := range names {
+		g := groups[n]
+		jobs = append(jobs, func() {
+			for _, o := range g {
+				o.Result = s.solveWith(sp, o, []int{1, 2}, o.Result)
+				if o.Result.Status != "unsat" {
+					return // the obligation has failed; the remaining instances stay undecided
+				}
+			}
+		})
+	}
+	par(jobs)
 }
